@@ -293,7 +293,7 @@ def get_double(value: FloatArgType, xsd_version: str | None = None) -> float:
                 return math.nan  # for NaN use the predefined instance to keep identity
         elif Patterns.xsd_number.match(value) is None:
             raise ValueError(f'invalid value {value!r} for xs:double/xs:float')
-    elif math.isnan(value):
+    elif not isinstance(value, int) and math.isnan(value):
         return math.nan
 
     try:
